@@ -28,7 +28,7 @@ META = dict(
                "of the channel (precondition, exactly the missing ancestry arrives, closure, records unchanged, the gain of a "
                "directive is independent of the common ancestor chosen as bundle base) and that the specified observation "
                "satisfies the observation laws. A seeded sample of those graphs (all of them up to 4 revisions in thorough) "
-               "is materialised with one of six edit schedules (three in thorough) and every (base, target) pair is written, installed and compared "
+               "is materialised with one of six edit schedules (two in thorough) and every (base, target) pair is written, installed and compared "
                "testament by testament in both bundle formats; directive cases are round-tripped in all twelve field "
                "combinations, verified, tampered and merged both ways. Every recorded execution is judged by the same TLA+ "
                "laws. Small-scope exhaustion of the model plus executed conformance; the byte formats themselves are "
@@ -50,7 +50,7 @@ EXOTIC = (None, "mlprop", "kind")
 MD_ZONES = (3600, 0, -18000, 19800, -1800, -34200)
 # how much of the exported case table is replayed (histories; tamper positions, directive cases, merged combinations per history)
 SIZES = {"quick": dict(small=13, four=30, exotic=6, ntamper=2, nmd=2, nmerge=1),
-         "thorough": dict(pats=3, five=100, exotic=30, ntamper=3, nmd=3, nmerge=2)}
+         "thorough": dict(pats=2, five=80, exotic=30, ntamper=3, nmd=3, nmerge=2)}
 
 
 def gen_cfg(maxrev, inv=("LawsHoldOnSpec",)):
